@@ -11,6 +11,7 @@ From MJ Require Import L2.Instr.
 From MJ Require Import L2.Compile.
 From MJ Require Import L2.Vm.
 From MJ Require Import L2.Simulation.
+From MJ Require Import C03.L2Relab.
 Local Open Scope nat_scope.
 
 (* ------------------------------------------------------------------------------------------ *)
@@ -660,14 +661,13 @@ Proof.
       apply hdl_env. cbn [emit s_env]. eapply eval_env_proof; eauto.
     + cbn [exec] in He. apply andb_prop in Hw as [Ha Hels].
       eapply (if_arms_hdl fuel esc els inl); eauto.
-    + destruct filter; try discriminate.
-      apply andb_prop in Hw as [Hw Hels]. apply andb_prop in Hw as [Hi Hbody].
-      pose proof He as He0. cbn [exec] in He.
-      bstep He p1 E1. destruct p1 as [iv s1]. bstep He items E2. cbn [bind] in He.
+    + apply andb_prop in Hw as [Hw Hels]. apply andb_prop in Hw as [Hw Hbody]. apply andb_prop in Hw as [Hi Hflt].
+      cbn [exec] in He.
+      bstep He p1 E1. destruct p1 as [iv s1]. bstep He items0 E2. bstep He p3 E3. destruct p3 as [items s2].
       bstep He s5 E4.
       assert (H6 : s_env (pop_frame s5) = s_env s).
-      { apply (for_scoped_proof c (S fuel) esc s t iter None body recursive SigNormal).
-        cbn [exec]. rewrite E1. cbn [bind]. rewrite E2. cbn [bind]. rewrite E4. cbn [bind]. destruct items; reflexivity. }
+      { apply (for_scoped_proof c (S fuel) esc s t iter filter body recursive SigNormal).
+        cbn [exec]. rewrite E1. cbn [bind]. rewrite E2. cbn [bind]. rewrite E3. cbn [bind]. rewrite E4. cbn [bind]. destruct items; reflexivity. }
       destruct items as [|it0 items]; [destruct els as [eb|]|].
       * rewrite <- (hdl_env _ _ H6). eapply IHl; eauto.
       * inversion He; subst. apply hdl_env, H6.
@@ -783,6 +783,31 @@ Proof.
   - exists σ'. split; [constructor|exact Hp].
 Qed.
 
+Notation postO := (L2.Simulation.postO C).
+
+Lemma postO_endpc sg lc e1 e2 stk s' esc escs caps its calls σ' :
+  e1 = e2 \/ sg <> SigNormal ->
+  postO sg lc e1 stk s' esc escs caps its calls σ' -> postO sg lc e2 stk s' esc escs caps its calls σ'.
+Proof. intros H [P|O]; [left; eapply post_endpc; eauto|right; exact O]. Qed.
+
+Lemma postO_then sg lc e1 e2 stk s' esc escs caps its calls σ' :
+  postO sg lc e1 stk s' esc escs caps its calls σ' ->
+  star (mkVm e1 stk s' esc escs caps its calls) (mkVm e2 stk s' esc escs caps its calls) ->
+  exists σ'', star σ' σ'' /\ postO sg lc e2 stk s' esc escs caps its calls σ''.
+Proof.
+  intros [P|O] Hs.
+  - destruct (post_then _ _ _ _ _ _ _ _ _ _ _ _ P Hs) as [σ2 [S2 P2]]. exists σ2. split; [exact S2|left; exact P2].
+  - exists σ'. split; [constructor|right; exact O].
+Qed.
+
+Lemma overflow_step σ : overflow C σ -> step c C σ = Err E_InvalidOperation.
+Proof.
+  intros [Hn (k & r & Hs & Hk)]. unfold step. rewrite Hn. cbn [exec_instr]. rewrite Hs. cbn [bind do_bin].
+  assert (Hf : in_i128b (k + 1) = false).
+  { unfold in_i128b, in_i128. apply andb_false_intro2. apply Z.leb_gt. lia. }
+  rewrite Hf. reflexivity.
+Qed.
+
 Lemma cleanup_sim p : forall pc stk s esc escs caps its calls,
   fits p (length (s_env s)) (length escs) (length caps) ->
   code_at C pc (cleanup_code p) ->
@@ -812,14 +837,14 @@ Definition sim_list (fuel : nat) (inl : bool) (l : list stmt) : Prop :=
   forall base lc stk escs caps its calls, code_at C base (compile_stmts l base lc) ->
   (inl = true -> lc <> None) -> lc_fits lc (length (s_env s)) (length escs) (length caps) ->
   exists σ', star (mkVm base stk s esc escs caps its calls) σ' /\
-             post sg lc (base + length (compile_stmts l base lc)) stk s' esc escs caps its calls σ'.
+             postO sg lc (base + length (compile_stmts l base lc)) stk s' esc escs caps its calls σ'.
 
 Definition sim_stmt (fuel : nat) (inl : bool) (t : stmt) : Prop :=
   forall esc s sg s', exec c fuel esc s t = Ok (sg, s') ->
   forall base lc stk escs caps its calls, code_at C base (compile_stmt t base lc) ->
   (inl = true -> lc <> None) -> lc_fits lc (length (s_env s)) (length escs) (length caps) ->
   exists σ', star (mkVm base stk s esc escs caps its calls) σ' /\
-             post sg lc (base + length (compile_stmt t base lc)) stk s' esc escs caps its calls σ'.
+             postO sg lc (base + length (compile_stmt t base lc)) stk s' esc escs caps its calls σ'.
 
 Lemma if_sim2 fuel esc els lc inl :
   (forall l, forallb (l2_stmt inl) l = true -> sim_list fuel inl l) ->
@@ -831,12 +856,12 @@ Lemma if_sim2 fuel esc els lc inl :
     code_at C base (if_code (fun b pc => compile_stmts b pc lc) els arms base) ->
     lc_fits lc (length (s_env s)) (length escs) (length caps) ->
     exists σ', star (mkVm base stk s esc escs caps its calls) σ' /\
-      post sg lc (base + length (if_code (fun b pc => compile_stmts b pc lc) els arms base)) stk s' esc escs caps its calls σ'.
+      postO sg lc (base + length (if_code (fun b pc => compile_stmts b pc lc) els arms base)) stk s' esc escs caps its calls σ'.
 Proof.
   intros IHl Hels Hin. induction arms as [|[cnd body] r IHr]; intros Hw s sg s' He base stk escs caps its calls Hc Hf.
   - cbn [if_arms if_code] in *. destruct els as [b|].
     + apply (IHl b Hels _ _ _ _ He _ _ _ _ _ _ _ Hc Hin Hf).
-    + inversion He; subst. eexists; split; [constructor|]. cbn [post length]. now rewrite Nat.add_0_r.
+    + inversion He; subst. eexists; split; [constructor|]. left. cbn [post length]. now rewrite Nat.add_0_r.
   - cbn [forallb fst snd] in Hw. apply andb_prop in Hw as [Hw Hr]. apply andb_prop in Hw as [Hcnd Hbody].
     cbn [if_arms] in He. fold (if_arms (c_mode c) (eval c fuel esc) (exec_list c fuel esc) els) in He.
     bstep He p1 E1. destruct p1 as [v s1]. bstep He t Et.
@@ -869,7 +894,7 @@ Proof.
       destruct t.
       * destruct (IHl body Hbody _ _ _ _ He (base + length cc + 1) lc stk escs caps its calls ltac:(eapply code_at_app_l; eauto) Hin Hf1) as [σ1 [S2 P2]].
         fold ct in P2. apply code_at_app_r in Hc.
-        destruct (post_then sg lc _ (base + (length cc + 1 + length ct + 1 + length cf)) _ _ _ _ _ _ _ _ P2) as [σ2 [S3 P3]].
+        destruct (postO_then sg lc _ (base + (length cc + 1 + length ct + 1 + length cf)) _ _ _ _ _ _ _ _ P2) as [σ2 [S3 P3]].
         { step_by Hc idtac. eapply star_eq; [constructor|]. f_equal. lia. }
         exists σ2. split; [|exact P3].
         eapply star_trans; [exact S1|].
@@ -883,7 +908,7 @@ Proof.
         -- eapply star_trans; [exact S1|].
            eapply star_step. { rewrite (step_at c C _ _ _ _ _ _ _ _ _ Hj). cbn [exec_instr v_stk v_st]. rewrite Et. reflexivity. }
            vmsimp. exact S2.
-        -- eapply post_endpc; [|exact P2]. left. fold cf. lia.
+        -- eapply postO_endpc; [|exact P2]. left. fold cf. lia.
     + subst r. rewrite Hne in Hc |- *.
       pose proof (Hcond _ Hc) as S1. apply code_at_app_r in Hc.
       pose proof (code_at_head _ _ _ _ Hc) as Hj. apply code_at_tail in Hc.
@@ -894,13 +919,13 @@ Proof.
         -- eapply star_trans; [exact S1|].
            eapply star_step. { rewrite (step_at c C _ _ _ _ _ _ _ _ _ Hj). cbn [exec_instr v_stk v_st]. rewrite Et. reflexivity. }
            vmsimp. replace (S (base + length cc)) with (base + length cc + 1) in * by lia. exact S2.
-        -- fold ct in P2. eapply post_endpc; [|exact P2]. left. lens.
+        -- fold ct in P2. eapply postO_endpc; [|exact P2]. left. lens.
       * cbn [if_arms] in He.
         assert (Hr0 : (sg, s') = (SigNormal, s1)).
         { destruct els as [[|x b]|]; try discriminate Hne.
           - eapply exec_list_nil; eauto.
           - inversion He; reflexivity. }
-        inversion Hr0; subst. eexists. split; [|reflexivity].
+        inversion Hr0; subst. eexists. split; [|left; reflexivity].
         eapply star_trans; [exact S1|].
         eapply star_step. { rewrite (step_at c C _ _ _ _ _ _ _ _ _ Hj). cbn [exec_instr v_stk v_st]. rewrite Et. reflexivity. }
         vmsimp. fold ct. eapply star_eq; [constructor|]. f_equal. lens.
@@ -984,8 +1009,9 @@ Lemma loop_sim fuel esc tgt body n it loop_end body_at its0 :
   loop_end = body_at + length (compile_stmts body body_at (Some (mkL it loop_end []))) + 1 ->
   forall items s i s5, loop_items (exec_list c fuel esc) tgt body n s i items = Ok s5 ->
   forall sv stk escs caps calls, head_rel i n s sv ->
-    exists sv5 rest, star (mkVm it stk sv esc escs caps (items :: its0) calls)
-                          (mkVm loop_end stk sv5 esc escs caps (rest :: its0) calls) /\ tail_rel n s5 sv5.
+    (exists sv5 rest, star (mkVm it stk sv esc escs caps (items :: its0) calls)
+                           (mkVm loop_end stk sv5 esc escs caps (rest :: its0) calls) /\ tail_rel n s5 sv5)
+    \/ (exists σo, star (mkVm it stk sv esc escs caps (items :: its0) calls) σo /\ overflow C σo).
 Proof.
   intros IHb Hbody Hc Hba Hle.
   pose proof (code_at_head _ _ _ _ Hc) as Hit.
@@ -997,7 +1023,7 @@ Proof.
   pose proof (code_at_head _ _ _ _ (code_at_app_r _ _ _ _ Hc2)) as Hj.
   induction items as [|item r IH]; intros s i s5 He sv stk escs caps calls Hh.
   - cbn [loop_items] in He. inversion He; subst s5.
-    exists sv, []. split.
+    left. exists sv, []. split.
     + apply star_one. rewrite (step_at c C _ _ _ _ _ _ _ _ _ Hit). reflexivity.
     + destruct Hh as (A & B & D & f & fv & e & E1 & E2 & _ & _ & E5). repeat split; auto.
       * rewrite E1, E2. reflexivity.
@@ -1022,47 +1048,314 @@ Proof.
     destruct (hdl_some _ _ Hl4) as (f4 & e4 & Ee4 & Ef4).
     assert (Hh4 : head_rel (i + 1) n s4 s4).
     { repeat split; auto. exists f4, f4, e4. repeat split; auto. rewrite Ef4. f_equal. f_equal. f_equal. lia. }
+    destruct P3 as [P3|O3];
+      [|right; exists σ1; split; [eapply star_trans; [exact S1|]; eapply star_trans; [exact S2|exact S3]|exact O3]].
     destruct sg.
     + (* normal end of the body: Jump back *)
       cbn [post] in P3. subst σ1.
-      destruct (IH _ _ _ He s4 stk escs caps calls Hh4) as (sv5 & rest & S4 & T).
-      exists sv5, rest. split; [|exact T].
-      eapply star_trans; [exact S1|]. eapply star_trans; [exact S2|]. eapply star_trans; [exact S3|].
-      eapply star_step; [|exact S4]. rewrite (step_at c C _ _ _ _ _ _ _ _ _ Hj). reflexivity.
+      assert (S34 : star (mkVm it stk sv esc escs caps ((item :: r) :: its0) calls) (mkVm it stk s4 esc escs caps (r :: its0) calls)).
+      { eapply star_trans; [exact S1|]. eapply star_trans; [exact S2|]. eapply star_trans; [exact S3|].
+        apply star_one. rewrite (step_at c C _ _ _ _ _ _ _ _ _ Hj). reflexivity. }
+      destruct (IH _ _ _ He s4 stk escs caps calls Hh4) as [(sv5 & rest & S4 & T)|(σo & S4 & O4)].
+      * left. exists sv5, rest. split; [|exact T]. eapply star_trans; [exact S34|exact S4].
+      * right. exists σo. split; [eapply star_trans; [exact S34|exact S4]|exact O4].
     + (* break *)
       inversion He; subst s5. cbn [post] in P3. destruct P3 as [l [Hl ->]]. inversion Hl; subst l. cbn [unwound lc_end lc_pending] in *.
-      exists s4, r. split.
+      left. exists s4, r. split.
       * eapply star_trans; [exact S1|]. eapply star_trans; [exact S2|exact S3].
       * repeat split; auto. exists f4, e4, i. split; assumption.
     + (* continue *)
       cbn [post] in P3. destruct P3 as [l [Hl ->]]. inversion Hl; subst l. cbn [unwound lc_iter lc_pending] in *.
-      destruct (IH _ _ _ He s4 stk escs caps calls Hh4) as (sv5 & rest & S4 & T).
-      exists sv5, rest. split; [|exact T].
-      eapply star_trans; [exact S1|]. eapply star_trans; [exact S2|]. eapply star_trans; [exact S3|exact S4].
+      assert (S34 : star (mkVm it stk sv esc escs caps ((item :: r) :: its0) calls) (mkVm it stk s4 esc escs caps (r :: its0) calls)).
+      { eapply star_trans; [exact S1|]. eapply star_trans; [exact S2|exact S3]. }
+      destruct (IH _ _ _ He s4 stk escs caps calls Hh4) as [(sv5 & rest & S4 & T)|(σo & S4 & O4)].
+      * left. exists sv5, rest. split; [|exact T]. eapply star_trans; [exact S34|exact S4].
+      * right. exists σo. split; [eapply star_trans; [exact S34|exact S4]|exact O4].
 Qed.
 
 
-(* compile_for_loop without filter, with named positions *)
-Definition f_it (iter : expr) (base : nat) : nat := base + length (compile_expr iter base) + 1.
-Definition f_body_at (tgt : target) (iter : expr) (base : nat) : nat := f_it iter base + 1 + length (assign_code tgt).
-Definition f_end (tgt : target) (iter : expr) (body : list stmt) (base : nat) : nat :=
-  f_body_at tgt iter base + length (compile_stmts body (f_body_at tgt iter base) (Some (mkL (f_it iter base) 0 []))) + 1.
-Definition f_flags (rc : bool) : nat := LOOP_FLAG_WITH_LOOP_VAR + (if rc then LOOP_FLAG_RECURSIVE else 0).
+(* ---- the accumulate loop of a filtered for ---- *)
+Lemma store_relab L s x v : s_env s <> [] -> store (relab L s) x v = relab L (store s x v).
+Proof.
+  intros Hne. unfold relab at 1. destruct (s_env s) as [|f e] eqn:E; [congruence|].
+  unfold relab, store. cbn [with_env s_env s_clos s_out s_asks]. rewrite E.
+  cbn [s_env with_env f_locals f_loop f_closure f_closure_ctx f_base s_clos s_out s_asks]. reflexivity.
+Qed.
 
-Lemma compile_for_eq tgt iter body els rc base lc :
-  compile_stmt (SFor tgt iter None body els rc) base lc =
-  compile_expr iter base ++ [IPushLoop (f_flags rc)] ++ [IIterate (f_end tgt iter body base)] ++ assign_code tgt
-    ++ compile_stmts body (f_body_at tgt iter base) (Some (mkL (f_it iter base) (f_end tgt iter body base) []))
+Lemma store_env_ne s x v : s_env s <> [] -> s_env (store s x v) <> [].
+Proof. unfold store. destruct (s_env s); [congruence|]. cbn [s_env]. discriminate. Qed.
+
+Lemma bind_target_relab L tgt s item s3 : s_env s <> [] ->
+  bind_target tgt s item = Ok s3 -> bind_target tgt (relab L s) item = Ok (relab L s3).
+Proof.
+  intros Hne. destruct tgt as [x|x y]; cbn [bind_target]; intros H.
+  - inversion H; subst. now rewrite store_relab.
+  - destruct item as [| | | | | |l| | |]; try discriminate. destruct l as [|a [|b [|? ?]]]; try discriminate.
+    inversion H; subst. rewrite store_relab by exact Hne. rewrite store_relab by (apply store_env_ne; exact Hne). reflexivity.
+Qed.
+
+(* closure fields of the innermost frame *)
+Definition topc (s : st) : option (option nat * option nat) :=
+  match s_env s with f :: _ => Some (f_closure f, f_closure_ctx f) | [] => None end.
+Lemma store_topc s x v : topc (store s x v) = topc s.
+Proof. unfold topc, store. destruct (s_env s) as [|f r] eqn:E; cbn [s_env f_closure f_closure_ctx]; rewrite ?E; reflexivity. Qed.
+Lemma bind_target_topc tgt s item s3 : bind_target tgt s item = Ok s3 -> topc s3 = topc s.
+Proof.
+  destruct tgt as [x|x y]; cbn [bind_target]; intros H.
+  - inversion H. apply store_topc.
+  - destruct item as [| | | | | |l| | |]; try discriminate. destruct l as [|a [|b [|? ?]]]; try discriminate.
+    inversion H. now rewrite !store_topc.
+Qed.
+
+Lemma lenZ_cons {A} (x : A) l : lenZ (x :: l) = (lenZ l + 1)%Z.
+Proof. unfold lenZ. cbn [length]. lia. Qed.
+Lemma lenZ_nonneg {A} (l : list A) : (0 <= lenZ l)%Z.
+Proof. unfold lenZ. lia. Qed.
+
+Lemma counter_step z : (0 <= z)%Z -> in_i128b (z + 1) = true \/ (i128_max <= z)%Z.
+Proof.
+  intros Hz. destruct (in_i128b (z + 1)) eqn:E; [left; reflexivity|right].
+  unfold in_i128b, in_i128 in E. apply andb_false_iff in E. destruct E as [E|E]; apply Z.leb_gt in E.
+  - assert (i128_min <= 0)%Z by (vm_compute; discriminate). lia.
+  - lia.
+Qed.
+
+(* Interp's state [s] between two items and the VM's [sv] at the Iterate of the accumulate loop: the VM
+   keeps ONE loop frame (hidden counters, no loop variable) on top of the scopes the interpreter has *)
+Definition frel (i n : Z) (s sv : st) : Prop :=
+  s_clos sv = s_clos s /\ s_out sv = s_out s /\ s_asks sv = s_asks s /\
+  exists fv, s_env sv = fv :: s_env s /\ f_loop fv = Some ((i - 1)%Z, n, false) /\
+             f_closure fv = None /\ f_closure_ctx fv = None.
+
+Lemma filter_sim fuel esc tgt fe it1 jf its0 n :
+  l2_expr fe = true ->
+  code_at C it1 ([IIterate (jf + 7)] ++ [IDupTop] ++ assign_code tgt ++ compile_expr fe (it1 + 1 + 1 + length (assign_code tgt))
+      ++ [IJumpIfFalse (jf + 5); ISwap; ILoadConst (VInt 1); IBinOp OAdd; IJump (jf + 6); IDiscardTop; IJump it1]) ->
+  jf = it1 + 1 + 1 + length (assign_code tgt) + length (compile_expr fe (it1 + 1 + 1 + length (assign_code tgt))) ->
+  forall items s kept s3, filter_items (c_mode c) (eval c fuel esc) tgt fe s items = Ok (kept, s3) ->
+  forall sv acc i stk escs caps calls,
+    frel i n s sv ->
+    (exists sv3 i3, star (mkVm it1 (VInt (lenZ acc) :: acc ++ stk) sv esc escs caps (items :: its0) calls)
+                         (mkVm (jf + 7) (VInt (lenZ acc + lenZ kept) :: rev kept ++ acc ++ stk) sv3 esc escs caps ([] :: its0) calls)
+       /\ frel i3 n s3 sv3)
+    \/ (exists σo, star (mkVm it1 (VInt (lenZ acc) :: acc ++ stk) sv esc escs caps (items :: its0) calls) σo /\ overflow C σo).
+Proof.
+  intros Hw Hc Hjf.
+  pose proof (code_at_head _ _ _ _ Hc) as Hit.
+  pose proof (code_at_tail _ _ _ _ Hc) as Hc1. cbn [app] in Hc1.
+  pose proof (code_at_head _ _ _ _ Hc1) as Hdup.
+  pose proof (code_at_tail _ _ _ _ Hc1) as Hc2.
+  pose proof (code_at_app_l _ _ _ _ Hc2) as Hca.
+  pose proof (code_at_app_r _ _ _ _ Hc2) as Hc3.
+  replace (S (S it1) + length (assign_code tgt)) with (it1 + 1 + 1 + length (assign_code tgt)) in Hc3 by lia.
+  pose proof (code_at_app_l _ _ _ _ Hc3) as Hcf.
+  pose proof (code_at_app_r _ _ _ _ Hc3) as Hc4. rewrite <- Hjf in Hc4.
+  pose proof (code_at_head _ _ _ _ Hc4) as H0.
+  pose proof (code_at_head _ _ _ _ (code_at_tail _ _ _ _ Hc4)) as H1.
+  pose proof (code_at_head _ _ _ _ (code_at_tail _ _ _ _ (code_at_tail _ _ _ _ Hc4))) as H2.
+  pose proof (code_at_head _ _ _ _ (code_at_tail _ _ _ _ (code_at_tail _ _ _ _ (code_at_tail _ _ _ _ Hc4)))) as H3.
+  pose proof (code_at_head _ _ _ _ (code_at_tail _ _ _ _ (code_at_tail _ _ _ _ (code_at_tail _ _ _ _ (code_at_tail _ _ _ _ Hc4))))) as H4.
+  pose proof (code_at_head _ _ _ _ (code_at_tail _ _ _ _ (code_at_tail _ _ _ _ (code_at_tail _ _ _ _ (code_at_tail _ _ _ _ (code_at_tail _ _ _ _ Hc4)))))) as H5.
+  pose proof (code_at_head _ _ _ _ (code_at_tail _ _ _ _ (code_at_tail _ _ _ _ (code_at_tail _ _ _ _ (code_at_tail _ _ _ _ (code_at_tail _ _ _ _ (code_at_tail _ _ _ _ Hc4))))))) as H6.
+  induction items as [|item r IH]; intros s kept s3 He sv acc i stk escs caps calls Hh.
+  - cbn [filter_items] in He. inversion He; subst kept s3.
+    left. exists sv, i. split; [|exact Hh].
+    apply star_one. rewrite (step_at c C _ _ _ _ _ _ _ _ _ Hit). cbn [exec_instr v_iters goto v_st v_stk v_esc v_escs v_caps v_calls].
+    cbn [lenZ length rev app]. unfold lenZ. cbn [length]. rewrite Z.add_0_r. reflexivity.
+  - destruct Hh as (A & Bq & D & fv & E1 & E2 & E3 & E4).
+    cbn [filter_items] in He. fold (filter_items (c_mode c) (eval c fuel esc) tgt fe) in He.
+    set (sf := push_frame s (mkFrame [] (Some (0%Z, 0%Z, false)) None None false)) in *.
+    bstep He sf1 Eb. bstep He p2 Ee. destruct p2 as [v sf2]. bstep He keep Ek. bstep He p3 Er. destruct p3 as [rest s4].
+    set (L := Some (i, n, false)).
+    (* Iterate *)
+    assert (S1 : star (mkVm it1 (VInt (lenZ acc) :: acc ++ stk) sv esc escs caps ((item :: r) :: its0) calls)
+                      (mkVm (S (S it1)) (item :: item :: VInt (lenZ acc) :: acc ++ stk) (relab L sf) esc escs caps (r :: its0) calls)).
+    { eapply star_step.
+      { rewrite (step_at c C _ _ _ _ _ _ _ _ _ Hit). cbn [exec_instr v_iters v_st v_stk v_pc v_esc v_escs v_caps v_calls].
+        rewrite E1. cbn [advance_loop]. rewrite E2. reflexivity. }
+      eapply star_eq. { apply star_one. rewrite (step_at c C _ _ _ _ _ _ _ _ _ Hdup). reflexivity. }
+      cbn [next v_pc v_stk v_st v_esc v_escs v_caps v_iters v_calls]. f_equal.
+      unfold relab, sf, push_frame, with_env, L. cbn [s_env s_clos s_out s_asks f_locals f_closure f_closure_ctx f_base].
+      rewrite A, Bq, D, E3, E4. replace (i - 1 + 1)%Z with i by lia. reflexivity. }
+    assert (Hsf : s_env sf <> []) by (unfold sf, push_frame; cbn [s_env]; discriminate).
+    pose proof (bind_target_relab L tgt sf item sf1 Hsf Eb) as Eb'.
+    pose proof (assign_sim tgt _ item _ (S (S it1)) (item :: VInt (lenZ acc) :: acc ++ stk) esc escs caps (r :: its0) calls Eb' Hca) as S2.
+    replace (S (S it1) + length (assign_code tgt)) with (it1 + 1 + 1 + length (assign_code tgt)) in S2 by lia.
+    assert (Hl1 : hdl sf1 = Some (Some (0%Z, 0%Z, false))) by (rewrite (bind_target_hdl _ _ _ _ Eb); reflexivity).
+    assert (Hth : top_hidden sf1).
+    { unfold top_hidden. destruct (hdl_some _ _ Hl1) as (f1 & e1 & Ee1 & Ef1). rewrite Ee1, Ef1. reflexivity. }
+    destruct (eval_relab c L eq_refl fuel esc fe Hw sf1 v sf2 Hth Ee) as [Ee' Henv2].
+    pose proof (sim_all c C fuel esc fe Hw _ _ _ Ee' _ (item :: VInt (lenZ acc) :: acc ++ stk) escs caps (r :: its0) calls Hcf) as S3.
+    rewrite <- Hjf in S3.
+    (* the relation for the next item *)
+    assert (Hc1' : topc sf1 = Some (None, None)) by (rewrite (bind_target_topc _ _ _ _ Eb); reflexivity).
+    assert (Hh' : frel (i + 1) n (pop_frame sf2) (relab L sf2)).
+    { destruct (relab_fields L sf2) as (R1 & R2 & R3).
+      unfold frel. cbn [pop_frame s_clos s_out s_asks s_env]. repeat split; auto.
+      rewrite relab_env. unfold topc in Hc1'. rewrite <- Henv2 in Hc1'.
+      destruct (s_env sf2) as [|f2 e2]; [discriminate|]. inversion Hc1' as [[Q1 Q2]].
+      eexists. split; [reflexivity|]. cbn [tl f_loop f_closure f_closure_ctx]. repeat split; auto.
+      unfold L. f_equal. f_equal. f_equal. lia. }
+    pose proof (lenZ_nonneg acc) as Hn0.
+    destruct keep.
+    + (* kept: Swap; LoadConst 1; Add; Jump; Jump *)
+      inversion He; subst kept s3.
+      assert (S5 : star (mkVm it1 (VInt (lenZ acc) :: acc ++ stk) sv esc escs caps ((item :: r) :: its0) calls)
+                        (mkVm (S (S (S jf))) (VInt 1 :: VInt (lenZ acc) :: item :: acc ++ stk) (relab L sf2) esc escs caps (r :: its0) calls)).
+      { eapply star_trans; [exact S1|]. eapply star_trans; [exact S2|]. eapply star_trans; [exact S3|].
+        eapply star_step. { rewrite (step_at c C _ _ _ _ _ _ _ _ _ H0). cbn [exec_instr v_stk v_st]. rewrite Ek. reflexivity. }
+        vmsimp.
+        eapply star_step. { rewrite (step_at c C _ _ _ _ _ _ _ _ _ H1). reflexivity. } vmsimp.
+        apply star_one. rewrite (step_at c C _ _ _ _ _ _ _ _ _ H2). reflexivity. }
+      destruct (counter_step (lenZ acc) Hn0) as [Hr|Hr].
+      * destruct (IH _ _ _ Er (relab L sf2) (item :: acc) (i + 1)%Z stk escs caps calls Hh') as [(sv3 & i3 & S4 & F4)|(σo & S4 & O4)].
+        -- left. exists sv3, i3. split; [|exact F4].
+           eapply star_trans; [exact S5|].
+           eapply star_step.
+           { rewrite (step_at c C _ _ _ _ _ _ _ _ _ H3). cbn [exec_instr v_stk v_st bind do_bin]. rewrite Hr. reflexivity. }
+           vmsimp.
+           eapply star_step. { rewrite (step_at c C _ _ _ _ _ _ _ _ _ H4). reflexivity. } vmsimp.
+           replace (S (S (S (S (S (S jf)))))) with (jf + 6) in H6 by lia.
+           eapply star_step. { rewrite (step_at c C _ _ _ _ _ _ _ _ _ H6). reflexivity. } vmsimp.
+           rewrite lenZ_cons in S4. cbn [app] in S4.
+           eapply star_eq; [exact S4|]. f_equal.
+           rewrite !lenZ_cons. cbn [rev]. rewrite <- !app_assoc. cbn [app]. f_equal. f_equal. lia.
+        -- right. exists σo. split; [|exact O4].
+           eapply star_trans; [exact S5|].
+           eapply star_step.
+           { rewrite (step_at c C _ _ _ _ _ _ _ _ _ H3). cbn [exec_instr v_stk v_st bind do_bin]. rewrite Hr. reflexivity. }
+           vmsimp.
+           eapply star_step. { rewrite (step_at c C _ _ _ _ _ _ _ _ _ H4). reflexivity. } vmsimp.
+           replace (S (S (S (S (S (S jf)))))) with (jf + 6) in H6 by lia.
+           eapply star_step. { rewrite (step_at c C _ _ _ _ _ _ _ _ _ H6). reflexivity. } vmsimp.
+           rewrite lenZ_cons in S4. cbn [app] in S4. exact S4.
+      * right. eexists. split; [exact S5|]. split; [exact H3|]. cbn [v_stk]. eauto.
+    + (* dropped: DiscardTop; Jump *)
+      inversion He; subst kept s3.
+      assert (S5 : star (mkVm it1 (VInt (lenZ acc) :: acc ++ stk) sv esc escs caps ((item :: r) :: its0) calls)
+                        (mkVm it1 (VInt (lenZ acc) :: acc ++ stk) (relab L sf2) esc escs caps (r :: its0) calls)).
+      { eapply star_trans; [exact S1|]. eapply star_trans; [exact S2|]. eapply star_trans; [exact S3|].
+        eapply star_step. { rewrite (step_at c C _ _ _ _ _ _ _ _ _ H0). cbn [exec_instr v_stk v_st]. rewrite Ek. reflexivity. }
+        vmsimp.
+        replace (S (S (S (S (S jf))))) with (jf + 5) in H5 by lia.
+        eapply star_step. { rewrite (step_at c C _ _ _ _ _ _ _ _ _ H5). reflexivity. } vmsimp.
+        replace (S (jf + 5)) with (jf + 6) by lia.
+        replace (S (S (S (S (S (S jf)))))) with (jf + 6) in H6 by lia.
+        apply star_one. rewrite (step_at c C _ _ _ _ _ _ _ _ _ H6). reflexivity. }
+      destruct (IH _ _ _ Er (relab L sf2) acc (i + 1)%Z stk escs caps calls Hh') as [(sv3 & i3 & S4 & F4)|(σo & S4 & O4)].
+      * left. exists sv3, i3. split; [eapply star_trans; [exact S5|exact S4]|exact F4].
+      * right. exists σo. split; [eapply star_trans; [exact S5|exact S4]|exact O4].
+Qed.
+
+(* compile_for_loop with named positions; [f_pre]: everything up to and including PushLoop(flags) *)
+Definition f_flags (rc : bool) : nat := LOOP_FLAG_WITH_LOOP_VAR + (if rc then LOOP_FLAG_RECURSIVE else 0).
+Definition f_pre (tgt : target) (iter : expr) (flt : option expr) (rc : bool) (base : nat) : list instr :=
+  match flt with
+  | None => compile_expr iter base ++ [IPushLoop (f_flags rc)]
+  | Some fe =>
+      let ci := compile_expr iter (base + 1) in
+      let it1 := base + 1 + length ci + 1 in
+      let ca := assign_code tgt in
+      let cf := compile_expr fe (it1 + 1 + 1 + length ca) in
+      let jf := it1 + 1 + 1 + length ca + length cf in
+      [ILoadConst (VInt 0)] ++ ci ++ [IPushLoop 0; IIterate (jf + 7)] ++ [IDupTop] ++ ca ++ cf
+        ++ [IJumpIfFalse (jf + 5); ISwap; ILoadConst (VInt 1); IBinOp OAdd; IJump (jf + 6); IDiscardTop;
+            IJump it1; IPopLoopFrame; IBuildList None; IPushLoop (f_flags rc)]
+  end.
+Definition f_it tgt iter flt rc (base : nat) : nat := base + length (f_pre tgt iter flt rc base).
+Definition f_body_at tgt iter flt rc (base : nat) : nat := f_it tgt iter flt rc base + 1 + length (assign_code tgt).
+Definition f_end tgt iter flt rc (body : list stmt) (base : nat) : nat :=
+  f_body_at tgt iter flt rc base
+  + length (compile_stmts body (f_body_at tgt iter flt rc base) (Some (mkL (f_it tgt iter flt rc base) 0 []))) + 1.
+
+Lemma compile_for_eq tgt iter flt body els rc base lc :
+  compile_stmt (SFor tgt iter flt body els rc) base lc =
+  f_pre tgt iter flt rc base ++ [IIterate (f_end tgt iter flt rc body base)] ++ assign_code tgt
+    ++ compile_stmts body (f_body_at tgt iter flt rc base) (Some (mkL (f_it tgt iter flt rc base) (f_end tgt iter flt rc body base) []))
     ++ match els with
-       | None | Some [] => [IJump (f_it iter base); IPopLoopFrame]
-       | Some eb => [IJump (f_it iter base); IPushDidNotIterate; IPopLoopFrame;
-                     IJumpIfFalse (f_end tgt iter body base + 3 + length (compile_stmts eb (f_end tgt iter body base + 3) lc))]
-                    ++ compile_stmts eb (f_end tgt iter body base + 3) lc
+       | None | Some [] => [IJump (f_it tgt iter flt rc base); IPopLoopFrame]
+       | Some eb => [IJump (f_it tgt iter flt rc base); IPushDidNotIterate; IPopLoopFrame;
+                     IJumpIfFalse (f_end tgt iter flt rc body base + 3 + length (compile_stmts eb (f_end tgt iter flt rc body base + 3) lc))]
+                    ++ compile_stmts eb (f_end tgt iter flt rc body base + 3) lc
        end.
 Proof.
-  cbn [compile_stmt]. unfold f_end, f_body_at, f_it, f_flags, compile_stmts.
-  rewrite !app_length. cbn [length]. rewrite !Nat.add_assoc.
-  destruct els as [[|x b]|]; rewrite <- !app_assoc; reflexivity.
+  cbn [compile_stmt]. unfold f_end, f_body_at, f_it, f_pre, f_flags, compile_stmts.
+  destruct flt; destruct els as [[|x b]|]; reflexivity.
+Qed.
+
+Lemma st_eta s : mkSt (s_env s) (s_clos s) (s_out s) (s_asks s) = s.
+Proof. destruct s; reflexivity. Qed.
+
+Lemma pre_sim fuel esc tgt iter flt rc base s iv s1 items0 items s2 stk escs caps its calls :
+  l2_expr iter = true -> match flt with Some fe => l2_expr fe | None => true end = true ->
+  eval c fuel esc s iter = Ok (iv, s1) -> loop_items_of (c_mode c) iv = Ok items0 ->
+  match flt with
+  | None => Ok (items0, s1)
+  | Some fe => filter_items (c_mode c) (eval c fuel esc) tgt fe s1 items0
+  end = Ok (items, s2) ->
+  code_at C base (f_pre tgt iter flt rc base) ->
+  star (mkVm base stk s esc escs caps its calls)
+       (mkVm (f_it tgt iter flt rc base) stk (push_frame s2 (mkFrame [] (Some ((-1)%Z, lenZ items, true)) None None false))
+             esc escs caps (items :: its) calls)
+  \/ (exists σo, star (mkVm base stk s esc escs caps its calls) σo /\ overflow C σo).
+Proof.
+  intros Hiter Hflt E1 E2 E3 Hc. unfold f_it.
+  assert (Hodd : Nat.odd (f_flags rc) = true) by (destruct rc; reflexivity).
+  destruct flt as [fe|]; cbn [f_pre] in Hc |- *.
+  - (* with filter *)
+    set (ci := compile_expr iter (base + 1)) in *.
+    set (it1 := base + 1 + length ci + 1) in *.
+    set (ca := assign_code tgt) in *.
+    set (cf := compile_expr fe (it1 + 1 + 1 + length ca)) in *.
+    set (jf := it1 + 1 + 1 + length ca + length cf) in *.
+    pose proof (code_at_head _ _ _ _ Hc) as H0. apply code_at_tail in Hc.
+    replace (S base) with (base + 1) in Hc by lia.
+    pose proof (sim_all c C fuel esc iter Hiter _ _ _ E1 (base + 1) (VInt 0 :: stk) escs caps its calls ltac:(eapply code_at_app_l; eauto)) as S1.
+    apply code_at_app_r in Hc. fold ci in Hc, S1.
+    pose proof (code_at_head _ _ _ _ Hc) as Hpl. apply code_at_tail in Hc.
+    replace (S (base + 1 + length ci)) with it1 in Hc by (unfold it1; lia).
+    (* the block of the accumulate loop *)
+    assert (Hblk : code_at C it1 (([IIterate (jf + 7)] ++ [IDupTop] ++ ca ++ cf
+               ++ [IJumpIfFalse (jf + 5); ISwap; ILoadConst (VInt 1); IBinOp OAdd; IJump (jf + 6); IDiscardTop; IJump it1])
+               ++ [IPopLoopFrame; IBuildList None; IPushLoop (f_flags rc)])).
+    { rewrite <- !app_assoc. cbn [app] in Hc |- *. exact Hc. }
+    pose proof (code_at_app_l _ _ _ _ Hblk) as Hloop. apply code_at_app_r in Hblk.
+    replace (it1 + length ([IIterate (jf + 7)] ++ [IDupTop] ++ ca ++ cf
+               ++ [IJumpIfFalse (jf + 5); ISwap; ILoadConst (VInt 1); IBinOp OAdd; IJump (jf + 6); IDiscardTop; IJump it1]))
+      with (jf + 7) in Hblk by (rewrite !app_length; cbn [length]; unfold jf; lia).
+    set (n0 := lenZ items0).
+    set (svl := push_frame s1 (mkFrame [] (Some ((-1)%Z, n0, false)) None None false)).
+    assert (S2 : star (mkVm base stk s esc escs caps its calls) (mkVm it1 (VInt (lenZ (@nil value)) :: [] ++ stk) svl esc escs caps (items0 :: its) calls)).
+    { eapply star_step. { rewrite (step_at c C _ _ _ _ _ _ _ _ _ H0). reflexivity. }
+      vmsimp. replace (S base) with (base + 1) by lia.
+      eapply star_trans; [exact S1|].
+      apply star_one. rewrite (step_at c C _ _ _ _ _ _ _ _ _ Hpl). cbn [exec_instr v_stk v_st]. rewrite E2. cbn [bind].
+      unfold svl, n0, it1. replace (base + 1 + length ci + 1) with (S (base + 1 + length ci)) by lia. reflexivity. }
+    assert (Hfr : frel 0 n0 s1 svl).
+    { unfold svl, frel, push_frame. cbn [s_clos s_out s_asks s_env]. repeat split; auto.
+      eexists. split; [reflexivity|]. repeat split; reflexivity. }
+    destruct (filter_sim fuel esc tgt fe it1 jf its n0 Hflt Hloop eq_refl _ _ _ _ E3 svl [] 0%Z stk escs caps calls Hfr)
+      as [(sv3 & i3 & S3 & F3)|(σo & S3 & O3)].
+    + left. destruct F3 as (A & Bq & D & fv & E5 & E6 & _ & _).
+      eapply star_trans; [exact S2|]. eapply star_trans; [exact S3|].
+      cbn [app].
+      step_by Hblk ltac:(rewrite E5, E6). apply code_at_tail in Hblk.
+      assert (Hp : pop_frame sv3 = s2).
+      { unfold pop_frame. rewrite E5, A, Bq, D. cbn [tl]. apply st_eta. }
+      rewrite Hp.
+      step_by Hblk ltac:(unfold lenZ; rewrite Z.add_0_l, Nat2Z.id, (pop_n_rev items stk []), app_nil_r).
+      apply code_at_tail in Hblk.
+      step_by Hblk ltac:(cbn [loop_items_of bind]; rewrite Hodd).
+      eapply star_eq; [constructor|]. f_equal.
+      cbn [length]. rewrite app_length. cbn [length]. rewrite app_length. rewrite app_length. cbn [length].
+      unfold jf, it1. lia.
+    + right. exists σo. split; [eapply star_trans; [exact S2|exact S3]|exact O3].
+  - (* without filter *)
+    inversion E3; subst items s2. left.
+    eapply star_trans. { eapply (sim_all c C fuel esc iter Hiter _ _ _ E1). eapply code_at_app_l; eauto. }
+    apply code_at_app_r in Hc.
+    step_by Hc ltac:(rewrite E2; cbn [bind]; rewrite Hodd).
+    eapply star_eq; [constructor|]. f_equal. rewrite app_length. cbn [length]. lia.
 Qed.
 
 Lemma lenZ_zero {A} (l : list A) : (lenZ l =? 0)%Z = match l with [] => true | _ => false end.
@@ -1077,43 +1370,41 @@ Proof.
   split.
   - intros inl t Hw esc s sg s' He base lc stk escs caps its calls Hc Hin Hf.
     destruct t; cbn [l2_stmt] in Hw; try discriminate; cbn [exec] in He.
-    + (* SRaw *) cbn [compile_stmt] in Hc |- *. inversion He; subst. eexists; split; [|reflexivity]. step_by Hc idtac. eapply star_eq; [constructor|]. f_equal. lens.
+    + (* SRaw *) cbn [compile_stmt] in Hc |- *. inversion He; subst. eexists; split; [|left; reflexivity]. step_by Hc idtac. eapply star_eq; [constructor|]. f_equal. lens.
     + (* SEmit *) cbn [compile_stmt] in Hc |- *.
       bstep He p1 E1. destruct p1 as [v s1].
       destruct (u_strictish (c_mode c) && is_strict_undef v) eqn:Eu; try discriminate. inversion He; subst.
-      eexists; split; [|reflexivity].
+      eexists; split; [|left; reflexivity].
       eapply star_trans. { eapply (sim_all c C fuel esc e Hw _ _ _ E1). eapply code_at_app_l; eauto. }
       apply code_at_app_r in Hc. step_by Hc ltac:(rewrite Eu). eapply star_eq; [constructor|]. f_equal. lens.
     + (* SIf *) cbn [compile_stmt] in Hc |- *.
       apply andb_prop in Hw as [Harms Hels].
       eapply (if_sim2 fuel esc els lc inl (IHl inl) Hels Hin arms Harms _ _ _ He); eauto.
     + (* SFor *)
-      destruct filter; try discriminate.
-      apply andb_prop in Hw as [Hw Hels]. apply andb_prop in Hw as [Hiter Hbody].
-      bstep He p1 E1. destruct p1 as [iv s1]. bstep He items E2. cbn [bind] in He. bstep He s5 E4.
-      change (loop_items_of (c_mode c) iv = Ok items) in E2.
+      apply andb_prop in Hw as [Hw Hels]. apply andb_prop in Hw as [Hw Hbody]. apply andb_prop in Hw as [Hiter Hflt].
+      bstep He p1 E1. destruct p1 as [iv s1]. bstep He items0 E2. bstep He p3 E3. destruct p3 as [items s2]. bstep He s5 E4.
+      change (loop_items_of (c_mode c) iv = Ok items0) in E2.
       assert (H6 : s_env (pop_frame s5) = s_env s).
-      { apply (for_scoped_proof c (S fuel) esc s t iter None body recursive SigNormal).
-        cbn [exec]. rewrite E1. cbn [bind]. unfold loop_items_of in E2. rewrite E2. cbn [bind]. rewrite E4. cbn [bind]. destruct items; reflexivity. }
+      { apply (for_scoped_proof c (S fuel) esc s t iter filter body recursive SigNormal).
+        cbn [exec]. rewrite E1. cbn [bind]. unfold loop_items_of in E2. rewrite E2. cbn [bind]. rewrite E3. cbn [bind].
+        rewrite E4. cbn [bind]. destruct items; reflexivity. }
       rewrite compile_for_eq in Hc |- *.
-      set (it := f_it iter base) in *. set (body_at := f_body_at t iter base) in *. set (loop_end := f_end t iter body base) in *.
-      assert (Hit : it = base + length (compile_expr iter base) + 1) by reflexivity.
+      set (pre := f_pre t iter filter recursive base) in *.
+      set (it := f_it t iter filter recursive base) in *. set (body_at := f_body_at t iter filter recursive base) in *.
+      set (loop_end := f_end t iter filter recursive body base) in *.
+      assert (Hit : it = base + length pre) by reflexivity.
       assert (Hba : body_at = it + 1 + length (assign_code t)) by reflexivity.
       assert (Hlen : loop_end = body_at + length (compile_stmts body body_at (Some (mkL it loop_end []))) + 1).
       { unfold loop_end at 1, f_end. fold body_at. fold it. f_equal. f_equal.
         unfold compile_stmts. apply (seq_len_indep body).
         clear. induction body; constructor; auto using compile_len_indep. }
-      pose proof (sim_all c C fuel esc iter Hiter _ _ _ E1 base stk escs caps its calls ltac:(eapply code_at_app_l; eauto)) as S1.
-      apply code_at_app_r in Hc.
-      pose proof (code_at_head _ _ _ _ Hc) as Hpl. apply code_at_tail in Hc.
-      replace (S (base + length (compile_expr iter base))) with it in Hc by lia.
       set (n := lenZ items) in *.
-      set (sv0 := push_frame s1 (mkFrame [] (Some ((-1)%Z, n, true)) None None false)).
-      assert (S2 : star (mkVm (base + length (compile_expr iter base)) (iv :: stk) s1 esc escs caps its calls)
-                        (mkVm it stk sv0 esc escs caps (items :: its) calls)).
-      { apply star_one. rewrite (step_at c C _ _ _ _ _ _ _ _ _ Hpl). cbn [exec_instr v_stk v_st]. rewrite E2. cbn [bind].
-        unfold sv0, it, f_it, n. replace (Nat.odd (f_flags recursive)) with true by (destruct recursive; reflexivity).
-        replace (base + length (compile_expr iter base) + 1) with (S (base + length (compile_expr iter base))) by lia. reflexivity. }
+      set (sv0 := push_frame s2 (mkFrame [] (Some ((-1)%Z, n, true)) None None false)).
+      destruct (pre_sim fuel esc t iter filter recursive base s iv s1 items0 items s2 stk escs caps its calls
+                  Hiter Hflt E1 E2 E3 ltac:(eapply code_at_app_l; eauto)) as [S12|(σo & S12 & O12)];
+        [|exists σo; split; [exact S12|right; exact O12]].
+      fold it n sv0 in S12.
+      apply code_at_app_r in Hc. rewrite <- Hit in Hc.
       set (TAIL := match els with
                    | None | Some [] => [IJump it; IPopLoopFrame]
                    | Some eb => [IJump it; IPushDidNotIterate; IPopLoopFrame;
@@ -1128,16 +1419,17 @@ Proof.
       replace (it + length ([IIterate loop_end] ++ assign_code t ++ compile_stmts body body_at (Some (mkL it loop_end [])) ++ [IJump it]))
         with loop_end in Hct by (rewrite !app_length; cbn [length]; lia).
       (* the iterations *)
-      assert (Hh0 : head_rel 0 n (push_frame s1 (mkFrame [] (Some (0%Z, n, true)) None None false)) sv0).
+      assert (Hh0 : head_rel 0 n (push_frame s2 (mkFrame [] (Some (0%Z, n, true)) None None false)) sv0).
       { unfold sv0, push_frame. repeat split; cbn [s_clos s_out s_asks s_env]; auto.
         eexists _, _, _. repeat split; reflexivity. }
       destruct (loop_sim fuel esc t body n it loop_end body_at its (IHl true body Hbody) Hbody Hc3
-                  ltac:(reflexivity) Hlen items _ _ _ E4 sv0 stk escs caps calls Hh0) as (sv5 & rest & S3 & T5).
+                  ltac:(reflexivity) Hlen items _ _ _ E4 sv0 stk escs caps calls Hh0) as [(sv5 & rest & S3 & T5)|(σo & S3 & O3)];
+        [|exists σo; split; [eapply star_trans; [exact S12|exact S3]|right; exact O3]].
       destruct T5 as (A5 & B5 & D5 & E5 & fv5 & e5 & k5 & Ee5 & Ef5).
       assert (Hpop : pop_frame sv5 = pop_frame s5).
       { unfold pop_frame. rewrite A5, B5, D5, E5. reflexivity. }
       assert (S0 : star (mkVm base stk s esc escs caps its calls) (mkVm loop_end stk sv5 esc escs caps (rest :: its) calls)).
-      { eapply star_trans; [exact S1|]. eapply star_trans; [exact S2|exact S3]. }
+      { eapply star_trans; [exact S12|exact S3]. }
       assert (Hf6 : lc_fits lc (length (s_env (pop_frame s5))) (length escs) (length caps)) by (rewrite H6; exact Hf).
       subst TAIL.
       destruct els as [[|x b]|].
@@ -1145,7 +1437,7 @@ Proof.
         cbn [app] in HT; injection HT as HT'; subst T'.
         assert (Hres : (sg, s') = (SigNormal, pop_frame s5)).
         { destruct items; [eapply exec_list_nil; eauto|inversion He; reflexivity]. }
-        inversion Hres; subst sg s'. eexists; split; [|reflexivity].
+        inversion Hres; subst sg s'. eexists; split; [|left; reflexivity].
         eapply star_trans; [exact S0|].
         step_by Hct ltac:(rewrite Ee5, Ef5). rewrite Hpop.
         eapply star_eq; [constructor|]. f_equal.
@@ -1173,10 +1465,10 @@ Proof.
               eapply star_step; [|exact S5].
               rewrite (step_at c C _ _ _ _ _ _ _ _ _ (code_at_head _ _ _ _ Hct2)). cbn [exec_instr v_stk v_st]. rewrite u_is_true_bool. cbn [bind]. unfold next. cbn [v_pc v_esc v_escs v_caps v_iters v_calls].
               replace (S (S (S loop_end))) with (loop_end + 3) by lia. reflexivity.
-           ++ eapply post_endpc; [|exact P5]. left. fold ce.
+           ++ eapply postO_endpc; [|exact P5]. left. fold ce.
               rewrite ?app_length. cbn [length]. rewrite ?app_length. cbn [length]. rewrite ?app_length. cbn [length].
               lia.
-        -- inversion He; subst sg s'. eexists; split; [|reflexivity].
+        -- inversion He; subst sg s'. eexists; split; [|left; reflexivity].
            eapply star_trans; [exact S0|]. eapply star_trans; [exact S4|].
            eapply star_step.
            { rewrite (step_at c C _ _ _ _ _ _ _ _ _ (code_at_head _ _ _ _ Hct2)). cbn [exec_instr v_stk v_st]. rewrite u_is_true_bool. reflexivity. }
@@ -1187,14 +1479,14 @@ Proof.
       * (* no else *)
         cbn [app] in HT; injection HT as HT'; subst T'.
         assert (Hres : (sg, s') = (SigNormal, pop_frame s5)) by (destruct items; inversion He; reflexivity).
-        inversion Hres; subst sg s'. eexists; split; [|reflexivity].
+        inversion Hres; subst sg s'. eexists; split; [|left; reflexivity].
         eapply star_trans; [exact S0|].
         step_by Hct ltac:(rewrite Ee5, Ef5). rewrite Hpop.
         eapply star_eq; [constructor|]. f_equal.
         rewrite ?app_length. cbn [length]. rewrite ?app_length. cbn [length]. rewrite ?app_length. cbn [length].
         lia.
     + (* SSet *) cbn [compile_stmt] in Hc |- *.
-      bstep He p1 E1. destruct p1 as [v s1]. inversion He; subst. eexists; split; [|reflexivity].
+      bstep He p1 E1. destruct p1 as [v s1]. inversion He; subst. eexists; split; [|left; reflexivity].
       eapply star_trans. { eapply (sim_all c C fuel esc e Hw _ _ _ E1). eapply code_at_app_l; eauto. }
       apply code_at_app_r in Hc. step_by Hc idtac. eapply star_eq; [constructor|]. f_equal. lens.
     + (* SSetBlock *) cbn [compile_stmt] in Hc |- *.
@@ -1207,9 +1499,10 @@ Proof.
       assert (S1 : star (mkVm base stk s esc escs caps its calls) σ1).
       { eapply star_step. { rewrite (step_at c C _ _ _ _ _ _ _ _ _ Hb). reflexivity. }
         vmsimp. replace (S base) with (base + 1) in * by lia. exact S2. }
+      destruct P2 as [P2|O2]; [|exists σ1; split; [exact S1|right; exact O2]].
       destruct sg1.
       * cbn [post] in P2. subst σ1.
-        bstep He fv Ef. inversion He; subst. eexists; split; [|reflexivity].
+        bstep He fv Ef. inversion He; subst. eexists; split; [|left; reflexivity].
         eapply star_trans; [exact S1|].
         replace (S base) with (base + 1) in * by lia.
         apply code_at_app_r in Hc. step_by Hc idtac. apply code_at_tail in Hc.
@@ -1220,10 +1513,10 @@ Proof.
            eapply star_eq; [constructor|]. f_equal. unfold compile_stmts. lens.
       * inversion He; subst. exists σ1. split; [exact S1|].
         destruct (post_enter ClCapture SigBreak lc _ _ _ _ _ _ _ _ _ (fun l pc => unwound pc (lc_pending l) stk (with_out s2 (s_out s)) esc escs caps its calls) P2 ltac:(discriminate) ltac:(reflexivity)) as [l [-> ->]].
-        cbn [post]. eauto.
+        left. cbn [post]. eauto.
       * inversion He; subst. exists σ1. split; [exact S1|].
         destruct (post_enter ClCapture SigContinue lc _ _ _ _ _ _ _ _ _ (fun l pc => unwound pc (lc_pending l) stk (with_out s2 (s_out s)) esc escs caps its calls) P2 ltac:(discriminate) ltac:(reflexivity)) as [l [-> ->]].
-        cbn [post]. eauto.
+        left. cbn [post]. eauto.
     + (* SWith *) cbn [compile_stmt] in Hc |- *.
       apply andb_prop in Hw as [Hb Hbody].
       bstep He s1 E1. bstep He p2 E2. destruct p2 as [sg2 s2]. inversion He; subst.
@@ -1239,8 +1532,9 @@ Proof.
       { eapply star_step. { rewrite (step_at c C _ _ _ _ _ _ _ _ _ Hp). reflexivity. }
         vmsimp. replace (S base) with (base + 1) in * by lia.
         eapply star_trans; [exact S1|exact S2]. }
+      destruct P2 as [P2|O2]; [|exists σ1; split; [exact S0|right; exact O2]].
       destruct sg.
-      * cbn [post] in P2. subst σ1. eexists; split; [|reflexivity].
+      * cbn [post] in P2. subst σ1. eexists; split; [|left; reflexivity].
         eapply star_trans; [exact S0|].
         apply code_at_app_r in Hc.
         assert (Hne : s_env s2 <> []).
@@ -1250,10 +1544,10 @@ Proof.
         eapply star_eq; [constructor|]. f_equal. unfold compile_stmts. lens.
       * exists σ1. split; [exact S0|].
         destruct (post_enter ClFrame SigBreak lc _ _ _ _ _ _ _ _ _ (fun l pc => unwound pc (lc_pending l) stk (pop_frame s2) esc escs caps its calls) P2 ltac:(discriminate) ltac:(reflexivity)) as [l [-> ->]].
-        cbn [post]. eauto.
+        left. cbn [post]. eauto.
       * exists σ1. split; [exact S0|].
         destruct (post_enter ClFrame SigContinue lc _ _ _ _ _ _ _ _ _ (fun l pc => unwound pc (lc_pending l) stk (pop_frame s2) esc escs caps its calls) P2 ltac:(discriminate) ltac:(reflexivity)) as [l [-> ->]].
-        cbn [post]. eauto.
+        left. cbn [post]. eauto.
     + (* SFilterBlock *) cbn [compile_stmt] in Hc |- *.
       bstep He p1 E1. destruct p1 as [[sg1 txt] s1]. bstep E1 p2 E2. destruct p2 as [sg2 s2]. inversion E1; subst. clear E1.
       pose proof (code_at_head _ _ _ _ Hc) as Hb. apply code_at_tail in Hc.
@@ -1264,9 +1558,10 @@ Proof.
       assert (S1 : star (mkVm base stk s esc escs caps its calls) σ1).
       { eapply star_step. { rewrite (step_at c C _ _ _ _ _ _ _ _ _ Hb). reflexivity. }
         vmsimp. replace (S base) with (base + 1) in * by lia. exact S2. }
+      destruct P2 as [P2|O2]; [|exists σ1; split; [exact S1|right; exact O2]].
       destruct sg1.
       * cbn [post] in P2. subst σ1.
-        bstep He fv Ef. inversion He; subst. eexists; split; [|reflexivity].
+        bstep He fv Ef. inversion He; subst. eexists; split; [|left; reflexivity].
         eapply star_trans; [exact S1|].
         replace (S base) with (base + 1) in * by lia.
         apply code_at_app_r in Hc. step_by Hc idtac. apply code_at_tail in Hc.
@@ -1275,10 +1570,10 @@ Proof.
         eapply star_eq; [constructor|]. f_equal. unfold compile_stmts. lens.
       * inversion He; subst. exists σ1. split; [exact S1|].
         destruct (post_enter ClCapture SigBreak lc _ _ _ _ _ _ _ _ _ (fun l pc => unwound pc (lc_pending l) stk (with_out s2 (s_out s)) esc escs caps its calls) P2 ltac:(discriminate) ltac:(reflexivity)) as [l [-> ->]].
-        cbn [post]. eauto.
+        left. cbn [post]. eauto.
       * inversion He; subst. exists σ1. split; [exact S1|].
         destruct (post_enter ClCapture SigContinue lc _ _ _ _ _ _ _ _ _ (fun l pc => unwound pc (lc_pending l) stk (with_out s2 (s_out s)) esc escs caps its calls) P2 ltac:(discriminate) ltac:(reflexivity)) as [l [-> ->]].
-        cbn [post]. eauto.
+        left. cbn [post]. eauto.
     + (* SAutoEscape *) cbn [compile_stmt] in Hc |- *.
       apply andb_prop in Hw as [Hv Hbody].
       bstep He p1 E1. destruct p1 as [x s1]. bstep He esc' Ee.
@@ -1295,49 +1590,51 @@ Proof.
         eapply star_step. { rewrite (step_at c C _ _ _ _ _ _ _ _ _ Hp). cbn [exec_instr v_stk v_st]. rewrite Ee. reflexivity. }
         vmsimp. replace (S (base + length (compile_expr v base))) with (base + length (compile_expr v base) + 1) in * by lia.
         exact S2. }
+      destruct P2 as [P2|O2]; [|exists σ1; split; [exact S0|right; exact O2]].
       destruct sg.
-      * cbn [post] in P2. subst σ1. eexists; split; [|reflexivity].
+      * cbn [post] in P2. subst σ1. eexists; split; [|left; reflexivity].
         eapply star_trans; [exact S0|].
         apply code_at_app_r in Hc. step_by Hc idtac.
         eapply star_eq; [constructor|]. f_equal. unfold compile_stmts. lens.
       * exists σ1. split; [exact S0|].
         destruct (post_enter ClAutoEscape SigBreak lc _ _ _ _ _ _ _ _ _ (fun l pc => unwound pc (lc_pending l) stk s' esc escs caps its calls) P2 ltac:(discriminate) ltac:(reflexivity)) as [l [-> ->]].
-        cbn [post]. eauto.
+        left. cbn [post]. eauto.
       * exists σ1. split; [exact S0|].
         destruct (post_enter ClAutoEscape SigContinue lc _ _ _ _ _ _ _ _ _ (fun l pc => unwound pc (lc_pending l) stk s' esc escs caps its calls) P2 ltac:(discriminate) ltac:(reflexivity)) as [l [-> ->]].
-        cbn [post]. eauto.
+        left. cbn [post]. eauto.
     + (* SBreak *) cbn [compile_stmt] in Hc |- *.
       inversion He; subst. destruct lc as [l|]; [|exfalso; apply Hin; auto].
       cbn [lc_fits] in Hf.
-      exists (unwound (lc_end l) (lc_pending l) stk s' esc escs caps its calls). split; [|cbn [post]; eauto].
+      exists (unwound (lc_end l) (lc_pending l) stk s' esc escs caps its calls). split; [|left; cbn [post]; eauto].
       pose proof (cleanup_sim (lc_pending l) base stk s' esc escs caps its calls Hf ltac:(eapply code_at_app_l; eauto)) as S1.
       apply code_at_app_r in Hc.
       eapply star_trans; [exact S1|]. apply star_one. apply unwound_jump. eapply code_at_head; eauto.
     + (* SContinue *) cbn [compile_stmt] in Hc |- *.
       inversion He; subst. destruct lc as [l|]; [|exfalso; apply Hin; auto].
       cbn [lc_fits] in Hf.
-      exists (unwound (lc_iter l) (lc_pending l) stk s' esc escs caps its calls). split; [|cbn [post]; eauto].
+      exists (unwound (lc_iter l) (lc_pending l) stk s' esc escs caps its calls). split; [|left; cbn [post]; eauto].
       pose proof (cleanup_sim (lc_pending l) base stk s' esc escs caps its calls Hf ltac:(eapply code_at_app_l; eauto)) as S1.
       apply code_at_app_r in Hc.
       eapply star_trans; [exact S1|]. apply star_one. apply unwound_jump. eapply code_at_head; eauto.
   - intros inl l Hw esc s sg s' He base lc stk escs caps its calls Hc Hin Hf.
     destruct l as [|t r]; cbn [exec_list] in He.
-    + inversion He; subst. eexists; split; [constructor|]. cbn. now rewrite Nat.add_0_r.
+    + inversion He; subst. eexists; split; [constructor|]. left. cbn. now rewrite Nat.add_0_r.
     + cbn [forallb] in Hw. apply andb_prop in Hw as [Ht Hr].
       bstep He p1 E1. destruct p1 as [sg1 s1].
       unfold compile_stmts in Hc |- *. cbn [seq_code] in Hc |- *.
       fold (compile_stmts r (base + length (compile_stmt t base lc)) lc) in Hc |- *.
       destruct (IHs inl t Ht _ _ _ _ E1 base lc stk escs caps its calls ltac:(eapply code_at_app_l; eauto) Hin Hf) as [σ1 [S1 P1]].
       apply code_at_app_r in Hc.
+      destruct P1 as [P1|O1]; [|exists σ1; split; [exact S1|right; exact O1]].
       destruct sg1.
       * cbn [post] in P1. subst σ1.
         assert (Hf1 : lc_fits lc (length (s_env s1)) (length escs) (length caps)).
         { apply exec_R_proof in E1. destruct E1 as [_ L]. rewrite L. exact Hf. }
         destruct (IHl inl r Hr _ _ _ _ He _ lc stk escs caps its calls Hc Hin Hf1) as [σ2 [S2 P2]].
         exists σ2. split; [eapply star_trans; eauto|].
-        eapply post_endpc; [|exact P2]. left. rewrite app_length. lia.
-      * inversion He; subst. exists σ1. split; [exact S1|]. eapply post_endpc; [|exact P1]. right. discriminate.
-      * inversion He; subst. exists σ1. split; [exact S1|]. eapply post_endpc; [|exact P1]. right. discriminate.
+        eapply postO_endpc; [|exact P2]. left. rewrite app_length. lia.
+      * inversion He; subst. exists σ1. split; [exact S1|]. left. eapply post_endpc; [|exact P1]. right. discriminate.
+      * inversion He; subst. exists σ1. split; [exact S1|]. left. eapply post_endpc; [|exact P1]. right. discriminate.
 Qed.
 
 End SimStmt.
@@ -1360,14 +1657,36 @@ Proof.
     apply Nat.leb_gt in Hlt. rewrite Hlt, Hs. exact Hn.
 Qed.
 
+Lemma star_run_err c C σ σ' k : L2.Simulation.star c C σ σ' -> step c C σ' = Err k -> exists n, run_vm c C n σ = Err k.
+Proof.
+  induction 1 as [σ|σ1 σ2 σ3 Hs _ IH]; intros He.
+  - exists 1. cbn [run_vm].
+    assert (Hlt : v_pc σ < length C).
+    { apply nth_error_Some. unfold step in He. destruct (nth_error C (v_pc σ)); [discriminate|discriminate He]. }
+    apply Nat.leb_gt in Hlt. rewrite Hlt, He. reflexivity.
+  - destruct (IH He) as [n Hn]. exists (S n). cbn [run_vm].
+    assert (Hlt : v_pc σ1 < length C).
+    { apply nth_error_Some. unfold step in Hs. destruct (nth_error C (v_pc σ1)); [discriminate|discriminate Hs]. }
+    apply Nat.leb_gt in Hlt. rewrite Hlt, Hs. exact Hn.
+Qed.
+
 Lemma template_sim c fuel body s :
   forallb (l2_stmt false) body = true -> Interp.run c fuel body = Ok s ->
-  exists n, run_template c n (compile_template body) = Ok s.
+  (exists n, run_template c n (compile_template body) = Ok s) \/
+  (exists σo, L2.Simulation.star c (compile_template body) (init_vm c) σo /\ overflow (compile_template body) σo).
 Proof.
   intros Hw Hr. unfold Interp.run in Hr. bstep Hr p E. destruct p as [sg s1]. inversion Hr; subst.
   destruct (proj2 (stmts_sim2 c (compile_template body) fuel) false body Hw _ _ _ _ E 0 None [] [] [] [] []
-              (code_at_whole _) ltac:(discriminate) I) as [σ' [S1 P1]].
-  destruct sg; cbn [post] in P1; [|destruct P1 as [l [Hl _]]; discriminate|destruct P1 as [l [Hl _]]; discriminate].
+              (code_at_whole _) ltac:(discriminate) I) as [σ' [S1 [P1|O1]]]; [|right; exists σ'; split; assumption].
+  left. destruct sg; cbn [post] in P1; [|destruct P1 as [l [Hl _]]; discriminate|destruct P1 as [l [Hl _]]; discriminate].
   subst σ'. destruct (star_run _ _ _ _ S1 eq_refl) as [n Hn].
   exists n. unfold run_template, init_vm. rewrite Hn. reflexivity.
+Qed.
+
+(* what the overflow alternative means for the run: InvalidOperation at the counter of an accumulate loop *)
+Lemma overflow_run c C σo : L2.Simulation.star c C (init_vm c) σo -> overflow C σo ->
+  exists n, run_template c n C = Err E_InvalidOperation.
+Proof.
+  intros S O. destruct (star_run_err _ _ _ _ _ S (overflow_step c C σo O)) as [n Hn].
+  exists n. unfold run_template. rewrite Hn. reflexivity.
 Qed.
